@@ -22,12 +22,13 @@ using namespace IMATH_NAMESPACE;
 namespace
 {
 
-// calibrated constants (see lib/props.d/c12.py for the measured worst ratios)
-const LD C_RECOMPOSE = 32;   // recomposition from Euler angles / from the returned rotation matrix
-const LD C_ORTH      = 32;   // orthonormality and determinant of the residual rotation
+// calibrated constants: worst ratios observed on the pristine tree over 1.2e7 cases per sub-check
+// (thorough tier, seeds 1-2): recompose 1.42, orthonormality 1.45, orders 1.27, computeRSMatrix 1.64
+const LD C_RECOMPOSE = 16;   // recomposition from Euler angles / from the returned rotation matrix
+const LD C_ORTH      = 16;   // orthonormality and determinant of the residual rotation
 const LD C_SAME      = 4;    // same factor through another entry point (relative, in eps)
-const LD C_ORDER     = 32;   // recomposition through Euler<T> for the 24 rotation orders
-const LD C_RS        = 32;   // computeRSMatrix, relative to the row length, in eps
+const LD C_ORDER     = 16;   // recomposition through Euler<T> for the 24 rotation orders
+const LD C_RS        = 16;   // computeRSMatrix, relative to the row length, in eps
 
 template <class T> LD epsT () { return (LD) std::numeric_limits<T>::epsilon (); }
 template <class T> LD skip_kappa () { return ldexpl (1.0L, -12) / epsT<T> (); }
@@ -991,21 +992,21 @@ const char* const SPACE2 = "affine Matrix33 (2-D): same construction; all 8 entr
 
 } // namespace
 
-MON_SUB_IDX (shrt44f, "shrt44_float", 320000, 12000000).req (CLS3_REQ).over (SPACE3);
-MON_SUB_IDX (shrt44d, "shrt44_double", 320000, 12000000).req (CLS3_REQ).over (SPACE3);
-MON_SUB_IDX (shrt33f, "shrt33_float", 480000, 12000000).req (CLS2_REQ).over (SPACE2);
-MON_SUB_IDX (shrt33d, "shrt33_double", 480000, 12000000).req (CLS2_REQ).over (SPACE2);
-MON_SUB_IDX (order44f, "shrt44_orders_float", 240000, 10000000).req ({"euler_overload", "order_overload"}).over ("extractSHRT(..., rOrder) and extractSHRT(..., Euler&) for all 24 rotation orders; rotation recomposed through Euler<T>::toMatrix44");
-MON_SUB_IDX (order44d, "shrt44_orders_double", 240000, 10000000).req ({"euler_overload", "order_overload"}).over ("extractSHRT(..., rOrder) and extractSHRT(..., Euler&) for all 24 rotation orders; rotation recomposed through Euler<T>::toMatrix44");
-MON_SUB_IDX (rs44f, "computeRSMatrix_float", 200000, 10000000).req ({"keepRotateA_keepScaleA", "keepRotateA_scaleB", "rotateB_keepScaleA", "rotateB_scaleB"}).over ("pairs (A,B) of regular affine matrices x 4 flag combinations; expected scale(A|B)*rotate(A|B)*translate(A)");
-MON_SUB_IDX (rs44d, "computeRSMatrix_double", 200000, 10000000).req ({"keepRotateA_keepScaleA", "keepRotateA_scaleB", "rotateB_keepScaleA", "rotateB_scaleB"}).over ("pairs (A,B) of regular affine matrices x 4 flag combinations; expected scale(A|B)*rotate(A|B)*translate(A)");
-MON_SUB_IDX (deg44f, "degenerate44_float", 80000, 4000000).req (DEG3_REQ).over ("Matrix44 with an exactly zero computed scale (zero rows, axis-parallel / axis-coplanar rows, magnitudes 2^-30..2^30): every entry point with exc=false and exc=true, computeRSMatrix with a degenerate A or B");
-MON_SUB_IDX (deg44d, "degenerate44_double", 80000, 4000000).req (DEG3_REQ).over ("Matrix44 with an exactly zero computed scale (zero rows, axis-parallel / axis-coplanar rows, magnitudes 2^-200..2^200): every entry point with exc=false and exc=true, computeRSMatrix with a degenerate A or B");
-MON_SUB_IDX (deg33f, "degenerate33_float", 80000, 4000000).req (DEG2_REQ).over ("Matrix33 with an exactly zero computed scale: every 2-D entry point with exc=false and exc=true");
-MON_SUB_IDX (deg33d, "degenerate33_double", 80000, 4000000).req (DEG2_REQ).over ("Matrix33 with an exactly zero computed scale: every 2-D entry point with exc=false and exc=true");
-MON_SUB_IDX (zs3f, "zeroscale_guard3_float", 1000000, 40000000).req (ZS_REQ).over ("checkForZeroScaleInRow(scl, Vec3): scl = +-0, denorm_min, subnormal, min normal, |row_i|/max * (1 +- k eps), >= 1; rows over the whole exponent range");
-MON_SUB_IDX (zs3d, "zeroscale_guard3_double", 1000000, 40000000).req (ZS_REQ).over ("checkForZeroScaleInRow(scl, Vec3): scl = +-0, denorm_min, subnormal, min normal, |row_i|/max * (1 +- k eps), >= 1; rows over the whole exponent range");
-MON_SUB_IDX (zs2f, "zeroscale_guard2_float", 1000000, 40000000).req (ZS_REQ).over ("checkForZeroScaleInRow(scl, Vec2): same classes");
-MON_SUB_IDX (zs2d, "zeroscale_guard2_double", 1000000, 40000000).req (ZS_REQ).over ("checkForZeroScaleInRow(scl, Vec2): same classes");
+MON_SUB_IDX (shrt44f, "shrt44_float", 640000, 18000000).req (CLS3_REQ).over (SPACE3);
+MON_SUB_IDX (shrt44d, "shrt44_double", 640000, 18000000).req (CLS3_REQ).over (SPACE3);
+MON_SUB_IDX (shrt33f, "shrt33_float", 960000, 18000000).req (CLS2_REQ).over (SPACE2);
+MON_SUB_IDX (shrt33d, "shrt33_double", 960000, 18000000).req (CLS2_REQ).over (SPACE2);
+MON_SUB_IDX (order44f, "shrt44_orders_float", 480000, 12000000).req ({"euler_overload", "order_overload"}).over ("extractSHRT(..., rOrder) and extractSHRT(..., Euler&) for all 24 rotation orders; rotation recomposed through Euler<T>::toMatrix44");
+MON_SUB_IDX (order44d, "shrt44_orders_double", 480000, 12000000).req ({"euler_overload", "order_overload"}).over ("extractSHRT(..., rOrder) and extractSHRT(..., Euler&) for all 24 rotation orders; rotation recomposed through Euler<T>::toMatrix44");
+MON_SUB_IDX (rs44f, "computeRSMatrix_float", 400000, 12000000).req ({"keepRotateA_keepScaleA", "keepRotateA_scaleB", "rotateB_keepScaleA", "rotateB_scaleB"}).over ("pairs (A,B) of regular affine matrices x 4 flag combinations; expected scale(A|B)*rotate(A|B)*translate(A)");
+MON_SUB_IDX (rs44d, "computeRSMatrix_double", 400000, 12000000).req ({"keepRotateA_keepScaleA", "keepRotateA_scaleB", "rotateB_keepScaleA", "rotateB_scaleB"}).over ("pairs (A,B) of regular affine matrices x 4 flag combinations; expected scale(A|B)*rotate(A|B)*translate(A)");
+MON_SUB_IDX (deg44f, "degenerate44_float", 160000, 3000000).req (DEG3_REQ).over ("Matrix44 with an exactly zero computed scale (zero rows, axis-parallel / axis-coplanar rows, magnitudes 2^-30..2^30): every entry point with exc=false and exc=true, computeRSMatrix with a degenerate A or B");
+MON_SUB_IDX (deg44d, "degenerate44_double", 160000, 3000000).req (DEG3_REQ).over ("Matrix44 with an exactly zero computed scale (zero rows, axis-parallel / axis-coplanar rows, magnitudes 2^-200..2^200): every entry point with exc=false and exc=true, computeRSMatrix with a degenerate A or B");
+MON_SUB_IDX (deg33f, "degenerate33_float", 160000, 3000000).req (DEG2_REQ).over ("Matrix33 with an exactly zero computed scale: every 2-D entry point with exc=false and exc=true");
+MON_SUB_IDX (deg33d, "degenerate33_double", 160000, 3000000).req (DEG2_REQ).over ("Matrix33 with an exactly zero computed scale: every 2-D entry point with exc=false and exc=true");
+MON_SUB_IDX (zs3f, "zeroscale_guard3_float", 2000000, 60000000).req (ZS_REQ).over ("checkForZeroScaleInRow(scl, Vec3): scl = +-0, denorm_min, subnormal, min normal, |row_i|/max * (1 +- k eps), >= 1; rows over the whole exponent range");
+MON_SUB_IDX (zs3d, "zeroscale_guard3_double", 2000000, 60000000).req (ZS_REQ).over ("checkForZeroScaleInRow(scl, Vec3): scl = +-0, denorm_min, subnormal, min normal, |row_i|/max * (1 +- k eps), >= 1; rows over the whole exponent range");
+MON_SUB_IDX (zs2f, "zeroscale_guard2_float", 2000000, 60000000).req (ZS_REQ).over ("checkForZeroScaleInRow(scl, Vec2): same classes");
+MON_SUB_IDX (zs2d, "zeroscale_guard2_double", 2000000, 60000000).req (ZS_REQ).over ("checkForZeroScaleInRow(scl, Vec2): same classes");
 
 MON_MAIN ("c12_factor")
